@@ -61,10 +61,21 @@ func loadBaseline() Baseline {
 	return b
 }
 
+// includes: obligations of the listed properties are necessary conditions of the key property and
+// are therefore also discharged (and reported) by its check.
+var includes = map[string][]string{
+	"C01": {"C10", "C11", "C12"}, // the output compiles only if imports, qualifiers and identifiers are right
+}
+
 func hasProp(props []string, p string) bool {
 	for _, x := range props {
 		if x == p {
 			return true
+		}
+		for _, inc := range includes[p] {
+			if x == inc {
+				return true
+			}
 		}
 	}
 	return false
@@ -179,6 +190,7 @@ func runCheck(prop, tier string, rebaseline bool) int {
 		for _, er := range e.errs {
 			run.Errs = append(run.Errs, er)
 		}
+		run.Notes = append(run.Notes, e.notes...)
 		for _, o := range e.obls {
 			if hasProp(o.Props, prop) {
 				smtObls = append(smtObls, o)
